@@ -7,14 +7,14 @@ NOT_APPLICABLE = {
     'C05': 'semantic preservation of a 23 kLoC formatter (IR, layout, printer over rowan trees); no function-level contract carries "same token sequence"',
     'C06': 'idempotence of the whole formatter pipeline; not a per-function contract',
     'C07': 'range-format locality depends on the whole formatter; not a per-function contract',
-    'C08': 'undo/resubmit invariance is a history property across all analysers and every index; the per-index contracts in reach are claimed under C09/C10',
-    'C11': 'independence from hash seeds is a relational property of the whole pipeline; not expressible as a function contract',
+    'C08': 'undo / resubmit invariance is a history property across all analysers and every index; the per-index contracts in reach are claimed under C09 / C10; the bounded search replay/c10_trace reports (without failing) that re-adding a file restores the index only up to stale dependents and order-dependent inference',
+    'C11': 'independence from hash seeds is a relational property of the whole pipeline (every HashMap / HashSet iteration whose order can leak into a result); one instance was found and repaired through the C35 search (EmmyLuaAnalysis::update_files_by_uri handed hash-set order to the analysers, 6bbebbb) and two through C16 (hash vs == of LuaType), but no function contract states the property as a whole',
     'C12': 'crash freedom of inference/type checking: tens of thousands of lines over an Arc-recursive type',
     'C14': 'rename / references walk the reference index and rowan ASTs in the LSP handlers; the lookup half of C13 is claimed, the edit sets are not in reach',
     'C15': 'oracle is execution in a Lua VM; flow narrowing is whole-analysis',
     'C17': 'render -> parse -> infer round trip over strings and the type system',
     'C18': 'generic instantiation is a whole-pipeline property',
-    'C30': 'debounce timers and cancellation across tasks: schedules, not function contracts',
+    'C30': 'convergence of published diagnostics is a statement about TIMED histories (debounce sleeps, cancellation tokens, the last scheduled task reading the then-current content); the ordering and locking ingredients are claimed under C27 / C28 / C29, the timers themselves are not expressible as pre/post states',
     'C34': 'conversion is url::Url + percent_encoding: dependency code',
     'C37': '8.8 kLoC of byte-offset markup parsing over rowan tokens; only the final sort_by_key is in reach, which is the std contract',
     'C40': 'whole converter -> string -> parser pipeline',
